@@ -201,7 +201,7 @@ class Profiles:
                 # even if cssutils is not needed. Thus, lazily compile them the
                 # first time they're needed.
                 # https://web.archive.org/web/20200701035537/https://bitbucket.org/cthedot/cssutils/issues/69)
-                value = util.LazyRegex('^(?:%s)$' % value, re.I)
+                value = util.LazyRegex('^(?:%s)$' % value, re.I | re.ASCII)
             dictionary[key] = value
 
         return dictionary
